@@ -31,7 +31,7 @@ Fixpoint labels (evs : list (nat * nat * Z)) : option (list label) :=
 (* result: 0 = agrees; otherwise 1 + an error code *)
 Definition check_case (c : case) : nat :=
   let '(ms, sr, sa, evs, verdict, oc) := c in
-  let g := {| maxsize := ms; src := sr; stop_after := sa |} in
+  let g := {| maxsize := ms; src := sr; stop_after := sa; drain_join := true |} in
   match labels evs with
   | None => 1
   | Some ls =>
